@@ -192,11 +192,21 @@ def check(ctx):
         ("bin", "div", ("bin", "pow", ("lit", 10), ("lit", 30)), ("lit", 7)),
         ("bin", "mul", ("bin", "div", ("lit", 2**64 + 1), ("lit", 3)), ("lit", 3)),
         ("sci", 1000, -3), ("sci", 15, 2), ("sci", 0, -5),
+        ("bin", "pow", ("bin", "div", ("lit", 1), ("lit", 2)), ("lit", 3)),
+        ("bin", "pow", ("bin", "div", ("lit", 5), ("lit", 2)), ("lit", 30)),
+        ("bin", "mul", ("bin", "pow", ("bin", "div", ("lit", 5), ("lit", 2)), ("lit", 30)), ("bin", "pow", ("lit", 2), ("lit", 30))),
+        ("bin", "pow", ("bin", "div", ("lit", 3), ("lit", 4)), ("lit", 7)), ("bin", "pow", ("lit", 3), ("lit", 5)), ("bin", "pow", ("lit", 10), ("lit", 7)),
     ]
     trees = list(corpus)
     while len(trees) < n:
         trees.append(gen_tree(rng, rng.randrange(1, maxd + 1)))
     real = ctx.real
+    # history must not matter: evaluate float powers of dyadic bases FIRST (a result cache keyed on == / hash would
+    # hand their float answers to the equal Fraction powers evaluated below)
+    for b in ("0.5", "1.5", "2.5", "0.25", "0.75", "3.0", "10.0"):
+        for e in (0, 1, 2, 3, 5, 7, 30):
+            real.value("%s ^ %d" % (b, e))
+            real.value("%s * %d" % (b, e)); real.value("%s + %d" % (b, e)); real.value("%s / 4" % b); real.value("%s %% 4" % b)
     for t in trees:
         try:
             want = ("val", oracle(t))
